@@ -1164,12 +1164,21 @@ fn product(dims: &[usize]) -> Vec<Vec<u32>> {
   out
 }
 
-/// Full product of the core tuple; below every tuple the remaining choice points with <= `bound` deviations.
-fn core_part(ctx: &Ctx, part: &str, dims: &[usize], bound: u32, run: &(dyn Fn(&Ctx, &[u32], &mut Chooser) + Sync)) {
+/// Full product of the core tuple; below every tuple the remaining choice points with <= `bound` deviations
+/// (0 for the tuples `wide` declines: they stay covered with the remaining points at their defaults).
+fn core_part(
+  ctx: &Ctx,
+  part: &str,
+  dims: &[usize],
+  bound: u32,
+  wide: &(dyn Fn(&[u32]) -> bool + Sync),
+  narrowed: &str,
+  run: &(dyn Fn(&Ctx, &[u32], &mut Chooser) + Sync),
+) {
   let tuples = product(dims);
   let agg = std::sync::Mutex::new((0u64, 0u64, 0u64, 0u64, true));
   tuples.par_iter().for_each(|t| {
-    let st = choice::explore(Some(bound), |ch| run(ctx, t, ch));
+    let st = choice::explore(Some(if wide(t) { bound } else { 0 }), |ch| run(ctx, t, ch));
     let mut a = agg.lock().unwrap();
     a.0 += st.executions;
     a.1 += st.states;
@@ -1183,11 +1192,11 @@ fn core_part(ctx: &Ctx, part: &str, dims: &[usize], bound: u32, run: &(dyn Fn(&C
   ctx.add_traces(a.0);
   ctx.add_evals(a.0);
   if !a.4 {
-    ctx.cap_hit(&format!("{part}: core tuple complete; the other choice points limited to {bound} deviation(s) (complete up to that bound)"));
+    ctx.cap_hit(&format!("{part}: core tuple complete; the other choice points limited to {bound} deviation(s){narrowed} (complete up to that bound)"));
   }
   ctx.part(
     part,
-    json!({"engine": "full product x E1 choice DFS", "core_tuples": tuples.len(), "core_dims": dims, "other_deviation_bound": bound,
+    json!({"engine": "full product x E1 choice DFS", "core_tuples": tuples.len(), "core_dims": dims, "other_deviation_bound": format!("{bound}{narrowed}"),
       "executions": a.0, "choice_tree_nodes": a.1, "edges": a.2, "max_depth": a.3}),
   );
 }
@@ -1208,11 +1217,12 @@ fn generate(ctx: &Ctx) {
   choice::explore_into(ctx, "issuer", Some(b), |ch| issuer_body(ctx, &mut Src { ch, core: None, k: 0 }, &|seq| Case::Issuer { seq }, "issuer"));
   choice::explore_into(ctx, "kb", Some(b), |ch| kb_body(ctx, &mut Src { ch, core: None, k: 0 }, &|seq| Case::Kb { seq }, "kb"));
   let b2 = ctx.by_tier(0u32, 1u32);
-  core_part(ctx, "issuer-core", &ISSUER_CORE_DIMS, b2, &|ctx, t, ch| {
+  // tuples whose header nonce differs from the option are widened only in part (a): 3 of the 5 nonce pairs
+  core_part(ctx, "issuer-core", &ISSUER_CORE_DIMS, b2, &|t| t[6] <= 1, if b2 > 0 { " (0 where header nonce != option nonce)" } else { "" }, &|ctx, t, ch| {
     let core = t.to_vec();
     issuer_body(ctx, &mut Src { ch, core: Some(t), k: 0 }, &move |seq| Case::IssuerCore { core: core.clone(), seq }, "issuer-core")
   });
-  core_part(ctx, "kb-core", &kb_core_dims(), b2, &|ctx, t, ch| {
+  core_part(ctx, "kb-core", &kb_core_dims(), b2, &|_| true, "", &|ctx, t, ch| {
     let core = t.to_vec();
     kb_body(ctx, &mut Src { ch, core: Some(t), k: 0 }, &move |seq| Case::KbCore { core: core.clone(), seq }, "kb-core")
   });
